@@ -5,7 +5,8 @@ import os
 REPO = os.environ.get("VERIF_REPO", "/repo")
 DATA = os.path.join(REPO, "tests", "data")
 # files that are deliberately malformed / need absent tools
-SKIP = {"mensural.mei"}
+# files the readers reject on every tree (no xml:id / mensural notation): counted by C19, not usable as smoke input
+SKIP = {"mensural.mei", "Bach_Hilf_Herr_Jesu.mei"}
 
 
 def _ls(sub, pats):
